@@ -48,6 +48,8 @@ Mirrors, definition by definition,
                                             lexicographically, then `std::lexicographical_compare` of the cells), `gt`, `le`, `ge`
 * `container/grid/output.hpp`,
   `detail/print_recurse.hpp`              : `Grid.output`, `printRec` — nested parentheses, last coordinate outermost
+* `container/grid/interpolate.hpp`,
+  `detail/interpolate.hpp`, `math/vector/bit_strings.hpp` : `Grid.interpolate`, `interpRec`, `bitStrings`
 * `container/grid/clamped_min.hpp`        : `clampedMin` — `max(p_i, 0)`
 * `container/grid/clamped_sup.hpp`        : `clampedSup` — `min(p_i, size_i)`
 * `container/grid/clamped_sup_signed.hpp` : `clampedSupSigned` — `math::clamp(p_i, 0, size_i).get_unsafe()`,
@@ -371,6 +373,41 @@ def printRec {α : Type} (g : Grid α) (sh : α → String) : Nat → Pos → Ex
 /-- `operator<<(stream, grid)`: `print_recurse<N>(stream, grid, null position)` -/
 def output {α : Type} (g : Grid α) (sh : α → String) : Except Fault String :=
   g.printRec sh g.size.length (zeros g.size)
+
+end Grid
+
+/-! ### interpolation (`interpolate.hpp`, `detail/interpolate.hpp`) -/
+
+/-- `math::vector::bit_strings<T, N>()`: the `2^N` vectors of zeros and ones, coordinate 0 running fastest -/
+def bitStrings : Nat → List Pos
+  | 0 => [[]]
+  | n + 1 => (bitStrings n).map (· ++ [0]) ++ (bitStrings n).map (· ++ [1])
+
+namespace Grid
+
+/-- `detail::interpolate<N>(grid, indices, value_index, pos, interpolator)`: for `N ≠ 1`
+    `interpolator(pos[N-1], interpolate<N-1>(…, value_index), interpolate<N-1>(…, value_index + (1 << (N-1))))`;
+    the base `N = 1` is `interpolator(pos.x, grid[indices[vi]], grid[indices[vi + 1]])`, written here as level 1 over the
+    level 0 "cell at `indices[vi]`" (`1 << 0 = 1`).  `indices.get_unsafe` outside the array: `Fault.oob`. -/
+def interpRec {α φ : Type} (g : Grid α) (idx : List Pos) (ip : φ → α → α → α) (fr : List φ) :
+    Nat → Nat → Except Fault α
+  | 0, vi =>
+    match idx[vi]? with
+    | some p => g.getUnsafe p
+    | none => .error .oob
+  | n + 1, vi =>
+    match fr[n]? with
+    | none => .error .oob
+    | some f => do
+      let a ← interpRec g idx ip fr n vi
+      let b ← interpRec g idx ip fr n (vi + 2 ^ n)
+      pure (ip f a b)
+
+/-- `grid::interpolate(grid, floating_point_position, interpolator)` with the position given as its integral part
+    `fl` (`floored`: `float_to_int` of every component, the position is not negative) and its fractional parts `fr`
+    (`mod(position, 1)`): the corner array is `bit_strings + floored`. -/
+def interpolate {α φ : Type} (g : Grid α) (fl : Pos) (fr : List φ) (ip : φ → α → α → α) : Except Fault α :=
+  g.interpRec ((bitStrings g.size.length).map fun b => List.zipWith (· + ·) b fl) ip fr g.size.length 0
 
 end Grid
 
